@@ -169,6 +169,56 @@ class World:
         self.res.violation(f"C14:foreign-accepted:{via}", "a module owned by another project was accepted", {"history": self.history[-40:]})
         return False
 
+    def op_new_module_foreign(self):
+        """new_module is an attach like any other: a module that belongs elsewhere (constructor keyword parent=<other project>,
+        or a factory handing back a module of the other project) is refused and nothing changes."""
+        from rv.errors import ModuleOwnershipError
+        kind = self.rng.choice(("parent-keyword", "factory"))
+        self.res.count("foreign_refusals")
+        before_other = (list(self.other.modules), self.other_mod.parent, self.other_mod.index)
+        try:
+            if kind == "parent-keyword":
+                self.p.new_module(self.rng.choice(self.types), parent=self.other, name=self.fresh_name())
+            else:
+                self.p.new_module(lambda **kw: self.other_mod)
+        except ModuleOwnershipError:
+            pass
+        except Exception as e:
+            self.res.violation(f"C14:foreign-wrong-error:new_module:{type(e).__name__}", f"new_module ({kind}) with a module owned elsewhere raised {e!r}", {"history": self.history[-40:]})
+            return False
+        else:
+            self.res.violation(f"C14:foreign-accepted:new_module-{kind}", "new_module accepted a module owned by another project", {"history": self.history[-40:]})
+            return False
+        if (list(self.other.modules), self.other_mod.parent, self.other_mod.index) != before_other:
+            self.res.violation("C14:foreign-refused-but-changed:new_module", "the refused new_module changed the other project", {"history": self.history[-40:]})
+            return False
+        return self.check(("new_module_foreign", kind))
+
+    def op_second_output(self):
+        """An Output constructed by hand is a module like any other as far as positions go: accepted or refused, the
+        project stays coherent (refused => nothing changed).  Files with two outputs are not this property's business,
+        so the world stops saving afterwards."""
+        n_before = self.observed_slots()
+        o = self.api.m.Output()
+        try:
+            if self.rng.random() < 0.5:
+                self.p.attach_module(o)
+            else:
+                self.p += o
+            accepted = True
+        except Exception:
+            accepted = False
+        if accepted:
+            self.no_more_saves = True
+            self.model_attach("Output")
+            self.res.count("observation_second_output_accepted")
+        else:
+            self.res.count("observation_second_output_refused")
+            if self.observed_slots() != n_before or o.parent is not None:
+                self.res.violation("C14:refused-but-changed:second-output", f"a refused Output was left behind: positions {self.observed_slots()}, its parent {o.parent!r}", {"history": self.history[-40:]})
+                return False
+        return self.check(("second_output", accepted))
+
     def op_attach_none(self):
         self.p.attach_module(None)
         self.slots.append(None)
@@ -343,6 +393,8 @@ class World:
         return self.check(("note_mod",))
 
     def op_save_load(self):
+        if getattr(self, "no_more_saves", False):
+            return True
         raw = self.p.read()
         self.p = self.api.read_sunvox_file(BytesIO(raw))
         while self.slots and self.slots[-1] is None:
@@ -359,8 +411,12 @@ class World:
             return self.op_attach_fresh(via)
         if r < 0.40:
             return self.op_attach_dup(via)
-        if r < 0.48:
+        if r < 0.45:
             return self.op_attach_foreign(via)
+        if r < 0.47:
+            return self.op_new_module_foreign()
+        if r < 0.48:
+            return self.op_second_output()
         if r < 0.58:
             return self.op_attach_none()
         if r < 0.68:
